@@ -118,7 +118,7 @@ impl<const BITS: usize, const LIMBS: usize> Encode for CompactRefUint<'_, BITS, 
             0..=6 => 1,
             7..=14 => 2,
             15..=30 => 4,
-            _ => (32 - self.0.leading_zeros() / 8) + 1,
+            _ => self.0.byte_len() + 1,
         }
     }
 
